@@ -85,7 +85,9 @@ func (g *tgen) value(t *ty, dev int) any {
 	switch t.k {
 	case "num":
 		if g.p(25) {
-			return json.Number(g.pick("1.5", "-2.5", "0.25", "10", "1.0", "2e0", "-0", "100"))
+			// integers are spelled canonically: the specification's numbers carry no spelling, and to_string / join
+			// of json.Number("1.0") legitimately give "1.0" (DESIGN 8.22); spellings are GenNum's subject
+			return json.Number(g.pick("1.5", "-2.5", "0.25", "10", "0.5", "2.25", "100"))
 		}
 		return json.Number(fmt.Sprint(g.r.Intn(7) - 2))
 	case "str":
@@ -128,7 +130,7 @@ func (g *tgen) doc() any {
 func (g *tgen) lit(t *ty) string {
 	switch t.k {
 	case "num":
-		return g.pick("`0`", "`1`", "`2`", "`-1`", "`1.5`", "`3`", "`1.0`", "`10`")
+		return g.pick("`0`", "`1`", "`2`", "`-1`", "`1.5`", "`3`", "`0.5`", "`10`")
 	case "str":
 		return g.pick("'a'", "''", "'b'", "'é€'", "`\"ab\"`", "'k'", "','", "'X'", "' '")
 	case "bool":
@@ -507,9 +509,10 @@ func (g *tgen) path(cur *ty, depth int) (string, *ty) {
 			case 0:
 				e += ".*"
 				inProj = true
-				t = tAny
 				if len(t.o) > 0 {
-					t = t.f[t.o[0]]
+					t = t.f[t.o[g.r.Intn(len(t.o))]]
+				} else {
+					t = tAny
 				}
 			case 1:
 				if depth > 0 {
